@@ -465,7 +465,7 @@ pub fn install_interceptors(seam: &SeamHandle) {
                         result = Err(std::io::ErrorKind::WouldBlock);
                         true
                     }
-                    ("err", _) => {
+                    ("err", _) | ("err_try", ClientCall::TrySendTo) => {
                         result = Err(std::io::ErrorKind::ConnectionRefused);
                         true
                     }
